@@ -205,6 +205,8 @@ struct Ctx<'a> {
     d: Counters,
     limit: usize,
     cb_panics: usize,
+    /// the property this run serves (see `RunOpts::own`)
+    own: Option<&'a str>,
 }
 
 fn delta(a: &Counters, b: &Counters) -> Counters {
@@ -522,6 +524,7 @@ fn check_step(c: &Ctx<'_>, stats: &mut RunStats, models_fix: &mut Option<Option<
     let pre_bytes: &[u8] = pre_t.map(|s| &s.bytes[..]).unwrap_or(&[]);
     let alloc_failure = matches!(c.real, Outcome::Returned(Ret::ErrReserve) | Outcome::PanicAlloc);
     let mut normal_success = false;
+    let mut swallowed: Option<Violation> = None;
 
     if alloc_failure {
         let needed = needed_capacity(op, pre_len);
@@ -634,6 +637,21 @@ fn check_step(c: &Ctx<'_>, stats: &mut RunStats, models_fix: &mut Option<Option<
             ));
         }
         stats.relevant("C01");
+        if fault && matches!(c.real, Outcome::Returned(Ret::Unit | Ret::Pop(_) | Ret::Removed(_))) {
+            // a refusal fired and the call still reports success (deliberate for hint reservations)
+            if op.is_item_sequence() || matches!(op, Op::Collect { .. }) {
+                stats.probe("refusal_swallowed_by_iterator_op");
+            } else {
+                // C05: a refused request makes the try_ form return the error and the plain form
+                // panic; only the iterator-driven operations may carry on (they ignore a failed
+                // size-hint reservation by design)
+                swallowed = Some(c.v(
+                    c.ctx_tags(&["C05"]),
+                    "refusal_swallowed",
+                    format!("the allocator refused a request during {} but the call reported success ({:?})", op.name(), c.real),
+                ));
+            }
+        }
         if matches!(c.real, Outcome::PanicInjected) {
             stats.relevant("C18");
             stats.probe(match op.callback_panic_at() {
@@ -671,8 +689,19 @@ fn check_step(c: &Ctx<'_>, stats: &mut RunStats, models_fix: &mut Option<Option<
     // ---- clauses that speak about successful, fault-free calls ---------------------------------
     if normal_success {
         if let Some(v) = check_success_clauses(c, stats) {
+            // two verdicts on one step: the one this check serves wins
+            if let (Some(sw), Some(own)) = (&swallowed, c.own) {
+                if sw.has_prop(own) && !v.has_prop(own) {
+                    return swallowed;
+                }
+            }
             return Some(v);
         }
+    }
+    // (reported after the postcondition clauses, so that e.g. C13's own verdict on a shrink whose
+    // refused realloc was swallowed is not pre-empted)
+    if swallowed.is_some() {
+        return swallowed;
     }
 
     // ---- C11: capacity >= len, for every handle, always ------------------------------------
@@ -1088,7 +1117,7 @@ pub fn run_case(slots_n: usize, heap_cfg: &super::heapcfg::HeapCfg, fail_run_req
         let post = snap_all(&w.slots);
         let d = delta(&c0, &c1);
         let post_models = w.models.clone();
-        let ctx = Ctx { idx, st: &st, pre: &pre, post: &post, pre_models: &pre_models, models: &post_models, real: &real, model: &model, d, limit: heap_cfg.limit, cb_panics };
+        let ctx = Ctx { idx, st: &st, pre: &pre, post: &post, pre_models: &pre_models, models: &post_models, real: &real, model: &model, d, limit: heap_cfg.limit, cb_panics, own: opts.own.as_deref() };
         stats.steps += 1;
         add_counters(&mut stats.counters, &d);
         stats.callback_panics += cb_panics as u64;
@@ -1230,6 +1259,7 @@ fn survivable(invariant: &str) -> bool {
             | "other_handle_changed"
             | "spurious_alloc_failure"
             | "try_form_panicked"
+            | "refusal_swallowed"
             | "failed_op_changed_target"
             | "rejected_index_had_effect"
             | "clone_allocated"
